@@ -38,6 +38,9 @@ func pairSpace(tier, opt string) []pairLeg {
 			k = thin(k, 2500)
 		}
 		add("K", k)
+		if !two {
+			add("Kstr", KeyedStr())
+		}
 		return legs
 	}
 	un := 4
@@ -56,6 +59,7 @@ func pairSpace(tier, opt string) []pairLeg {
 	add("deep", Deep(thorough || o == "none" || o == "MERGE"))
 	add("mixed", Mixed())
 	add("numbers", NumDocs())
+	add("strings", StrDocs())
 	add("hostile", thin(HostileDocs(), 110))
 	switch {
 	case o == "none":
